@@ -34,7 +34,7 @@ mod surface;
 pub fn spec() -> PropSpec {
     PropSpec {
         id: "C05",
-        rule: "cases: a value x (n limbs) built from shapes K constants (0,1,MAX,2^(B-1)..), P single bit 2^k (+-1) with k uniform over every bit position or edge-biased, R run of ones with one end on a limb boundary, L patterned limbs, 'low ones run ending exactly at a limb boundary + stopper limb', 'low zero limbs then a marker limb', 'zero high limbs below a top-limb edge', T random bit length, U uniform. shift-sweep sub-checks: for each x (and a second value `hi` for the double-width forms) EVERY shift in 0..=2*BITS+1 and u32::MAX is evaluated (Limb: every shift 0..64) on all constant-time / vartime / overflowing / wrapping / panicking / wide forms; shift-forms sub-checks: one (x, s) pair, s from classes {0, 1..63, 64k, 64k+-1, BITS-1, BITS, BITS+1, (BITS,2BITS), 2BITS, 2BITS+1, u32::MAX, uniform, huge} on every operator / trait / Wrapping / assign form incl. i32, usize, negative i32; bits sub-checks: every bit index 0..=BITS+1 (+ far out-of-range indices) for bit/bit_vartime and every index 0..BITS with both values for set_bit(_vartime), plus bits / leading / trailing zeros / ones in ct and vartime forms; bitops sub-checks: pairs (a, b) and a limb on every & | ^ ! form. non-trivial: shift-forms: s % 64 == 0, or s == BITS-1, or s >= BITS, or x has a set bit that lands in a different limb (and stays inside the width) under << s or >> s; shift-sweep and bits: x != 0 (the sweep always contains the special shifts, and a non-zero x has a bit that crosses a limb boundary or leaves the width for some swept shift); bitops: a != 0, b != 0 and a != b. surface sub-checks (API-surface audit, /verif/audit/C.md): boxed-mixed-precision-forms: pairs (a, b) of BoxedUint with DIFFERENT limb counts 1..=20 (adjacent counts over-weighted; one case in three forces the wider operand non-zero above the narrower precision) on the operator / checked_* / Wrapping<BoxedUint> by-reference and assigning forms not covered by boxed/bitops-mixed-precision, non-trivial: a != 0, b != 0 and the wider operand has a non-zero limb above the narrower operand's precision; widths: the fixed / int sub-checks repeated at 7, 9, 12 (Uint) and 5, 7 (Int) limbs with their own rules. distinct by the recorded inputs (x [, hi] [, s] or a, b, limb; boxed cases include the limb count through the limb vector length).",
+        rule: "cases: a value x (n limbs) built from shapes K constants (0,1,MAX,2^(B-1)..), P single bit 2^k (+-1) with k uniform over every bit position or edge-biased, R run of ones with one end on a limb boundary, L patterned limbs, 'low ones run ending exactly at a limb boundary + stopper limb', 'low zero limbs then a marker limb', 'zero high limbs below a top-limb edge', T random bit length, U uniform. shift-sweep sub-checks: for each x (and a second value `hi` for the double-width forms) EVERY shift in 0..=2*BITS+1 and u32::MAX is evaluated (Limb: every shift 0..64) on all constant-time / vartime / overflowing / wrapping / panicking / wide forms; shift-forms sub-checks: one (x, s) pair, s from classes {0, 1..63, 64k, 64k+-1, BITS-1, BITS, BITS+1, (BITS,2BITS), 2BITS, 2BITS+1, u32::MAX, uniform, huge} on every operator / trait / Wrapping / assign form incl. i32, usize, negative i32; bits sub-checks: every bit index 0..=BITS+1 (+ far out-of-range indices) for bit/bit_vartime and every index 0..BITS with both values for set_bit(_vartime), plus bits / leading / trailing zeros / ones in ct and vartime forms; bitops sub-checks: pairs (a, b) and a limb on every & | ^ ! form. non-trivial: shift-forms: s % 64 == 0, or s == BITS-1, or s >= BITS, or x has a set bit that lands in a different limb (and stays inside the width) under << s or >> s; shift-sweep and bits: x != 0 (the sweep always contains the special shifts, and a non-zero x has a bit that crosses a limb boundary or leaves the width for some swept shift); bitops: a != 0, b != 0 and a != b. surface sub-checks (API-surface audit, /verif/audit/C.md): boxed-mixed-precision-forms: pairs (a, b) of BoxedUint with DIFFERENT limb counts 1..=20 (adjacent counts over-weighted; one case in three forces the wider operand non-zero above the narrower precision) on the operator / checked_* / Wrapping<BoxedUint> by-reference and assigning forms not covered by boxed/bitops-mixed-precision, non-trivial: a != 0, b != 0 and the wider operand has a non-zero limb above the narrower operand's precision; widths: the fixed / int sub-checks repeated at 7, 9, 12 (Uint) and 5, 7 (Int) limbs with their own rules. distinct by the recorded inputs (x [, hi] [, s] or a, b, limb; boxed cases include the limb count through the limb vector length). Since seeding round 4: far shifts congruent to an in-range shift modulo 2^j (r 2^j + k, j <= 31) in the shift-forms classes and in the exhaustive sweeps.",
         assumptions: vec![
             "num-bigint shifts / div_floor are correct (independent implementation)".into(),
             "bridging uses from_words/as_words only".into(),
@@ -410,7 +410,28 @@ pub(crate) mod g {
             9 => 2 * bits + 1,
             10 => u32::MAX as u64,
             11 => t.range(0, 2 * bits + 1),
-            _ => t.range(2 * bits + 2, u32::MAX as u64),
+            _ => {
+                // far out of range: uniform, or (two times in three) congruent to an in-range shift
+                // modulo a power of two, r * 2^j + k — what a truncated / masked / partially compared
+                // shift amount would be mistaken for
+                if t.chance(2, 3) {
+                    let jmin = 64 - (2 * bits + 1).leading_zeros() as u64;
+                    let j = match t.weighted(&[2, 1]) {
+                        0 => t.pick(&[31u64, 30, 16, 24]).max(jmin),
+                        _ => t.range(jmin, 31),
+                    };
+                    let r = t.range(1, 3);
+                    let k = t.range(0, bits + 1);
+                    let s = ((r << j) + k) & (u32::MAX as u64);
+                    if s > 2 * bits + 1 {
+                        s
+                    } else {
+                        (1 << 31) + k
+                    }
+                } else {
+                    t.range(2 * bits + 2, u32::MAX as u64)
+                }
+            }
         }
     }
 
@@ -477,9 +498,15 @@ pub(crate) mod g {
         }
     }
 
-    /// Every shift of the exhaustive sweep: 0..=2*BITS+1 and u32::MAX.
+    /// Every shift of the exhaustive sweep: 0..=2*BITS+1, u32::MAX, and far shifts that are congruent
+    /// to small in-range shifts modulo 2^16, 2^24, 2^30, 2^31.
     pub fn sweep_shifts(bits: u64) -> impl Iterator<Item = u64> {
-        (0..=2 * bits + 1).chain(std::iter::once(u32::MAX as u64))
+        let far = [16u64, 24, 30, 31]
+            .into_iter()
+            .flat_map(move |j| [0u64, 1, 63, 64, 65, bits - 1, bits].into_iter().map(move |k| (1u64 << j) + k))
+            .chain([(3u64 << 30) + 1, (1u64 << 32) - bits, (1u64 << 32) - 64])
+            .filter(move |&s| s > 2 * bits + 1 && s < u32::MAX as u64);
+        (0..=2 * bits + 1).chain(std::iter::once(u32::MAX as u64)).chain(far)
     }
 }
 
